@@ -91,9 +91,18 @@ def edit(p, ctx):
                     for wk in M.workers:
                         if t < len(wk.cost_list) and wk.cost_list[t] != 0:
                             ctx.fail("C18:inserted-step-has-cost")
+                    for cp in M.comps:
+                        if t < len(cp.state_record_list) and int(cp.state_record_list[t]) == 2:
+                            ctx.fail("C18:inserted-step-logged-working:component")
                     for tk in M.tasks:
                         if type(tk).__name__ == "BaseSubProjectTask":
                             continue  # its logs are not edited at all (listed known finding): indices do not line up
+                        if t < len(tk.state_record_list) and int(tk.state_record_list[t]) == 2:
+                            ctx.fail("C18:inserted-step-logged-working:task")
+                        if t == 0 and len(tk.remaining_work_amount_record_list) > 0:
+                            ti_ = M.tasks.index(tk)
+                            if tk.remaining_work_amount_record_list[0] != M.work[ti_] * (1 - M.prog[ti_] / 2):
+                                ctx.fail("C18:inserted-step-changes-remaining-work")
                         rl = tk.remaining_work_amount_record_list
                         if 0 < t < len(rl) and rl[t] != rl[t - 1]:
                             ctx.fail("C18:inserted-step-changes-remaining-work")
@@ -129,6 +138,8 @@ def obligations(tier, seed):
     members.append(("wf2teams", {"tasks": [{"w": "$w0"}, {"w": "$w1"}], "edges": [[0, 1, 0]],
                                  "teams": [{"targets": [0, 1], "workers": [{"skills": {"0": 1, "1": 1}, "cost": 2}]}, {"targets": [1], "workers": [{"skills": {"1": 1}, "cost": 3}]}],
                                  "run": {"max_time": 10, "abs": ["$pa0"]}}, [["w0", 1, 3], ["w1", 1, 2], ["pa0", 0, 6]], {}))
+    members.append(("progress", {"tasks": [{"w": "$w0", "g": 1}, {"w": "$w1", "g": "$g1"}], "edges": [[0, 1, 0]], "teams": profiles.layout_workers("shared1", 2),
+                                 "run": {"max_time": 10, "abs": ["$pa0"]}}, [["w0", 2, 4], ["w1", 1, 2], ["g1", 0, 2], ["pa0", 0, 6]], {}))
     fac = [ob for ob in profiles.p_product("F1", thorough) if "wps=2/links=0>1/wprule=0/fs" in ob["name"]][0]
     spec = dict(fac["cube"]["spec"])
     members.append(("prod", spec, [["w0", 1, 2], ["w1", 1, 2]], {"z0": 1, "z1": 1, "cap0": 1, "cap1": 1, "fs0": 1, "fs1": 1}))
